@@ -1,7 +1,7 @@
 (* C08Theorems.v — the property theorems of C08 and nothing else.  Each is closed by
    `exact <lemma>` and followed by Print Assumptions (audited by ./check on every run). *)
 From V.lib Require Import Base.
-From V.c08 Require Import C08Model C08Spec C08ReadProofs C08HeaderProofs C08CopyProofs C08TreeProofs.
+From V.c08 Require Import C08Model C08Spec C08ReadProofs C08HeaderProofs C08CopyProofs C08TreeProofs C08SelModel C08SelProofs.
 
 (* ReadData / CopyData (repaired text, `end > dataLen`): for every file, every mdat box lying in it
    (8- or 16-byte header), every range that starts at a payload byte and ends at or before the end of
@@ -158,3 +158,53 @@ Example C08_tree_equal_hyps :
   map erase (views true file 0 bs)
   = [([102;114;101;101], 0, 8, false); (name_mdat, 8, 18, true); ([109;111;111;118], 26, 9, false)].
 Proof. vm_compute. repeat split; reflexivity. Qed.
+
+(* File.Mdat of a progressive file (the DecodeFile pre-check "only one non-empty mdat box" followed by
+   File.AddChild's "keep the first non-empty mdat"): for every file that is exactly a sequence of boxes with ANY
+   number of mdat boxes in any arrangement (empty or not, 8/16-byte headers, before/between/after the other
+   boxes), decoding in memory and decoding lazily either both fail (two non-empty mdat boxes) or select the SAME
+   top-level box: equal StartPos, LargeSize, Size() and PayloadAbsoluteOffset() - or both select none. *)
+Theorem C08_file_mdat_equal :
+  forall file zeof bs orc1 orc2,
+  lenN file < 9223372036854775808 ->
+  layout_at file 0 bs = true ->
+  res_rel (decode_file_mdat (S (length bs)) false file zeof (mkRS 0 orc1))
+          (decode_file_mdat (S (length bs)) true file zeof (mkRS 0 orc2))
+  /\ decode_file_mdat (S (length bs)) true file zeof (mkRS 0 orc2) = file_mdat None (views true file 0 bs).
+Proof. exact file_mdat_equal. Qed.
+Print Assumptions C08_file_mdat_equal.
+
+(* which box that is: if exactly one top-level mdat is non-empty it is the one selected, whatever empty mdat
+   boxes and other boxes precede or FOLLOW it; a second non-empty mdat is an error (in either representation:
+   the statement is about any list of decoded top-level boxes) *)
+Theorem C08_file_mdat_spec :
+  forall pre m sz rest,
+  forallb (fun b => negb (nonempty_mdat b)) pre = true -> 0 < payload_size m ->
+  (forallb (fun b => negb (nonempty_mdat b)) rest = true ->
+     exists z, file_mdat None (pre ++ TMdat m sz :: rest) = Ok (Some z) /\ key z = key m)
+  /\ (existsb nonempty_mdat rest = true -> file_mdat None (pre ++ TMdat m sz :: rest) = Err).
+Proof. exact file_mdat_spec. Qed.
+Print Assumptions C08_file_mdat_spec.
+
+(* satisfiable, non-trivial: ftyp-like box, empty mdat, media mdat (2 bytes), empty large-header mdat after it;
+   both modes select the media mdat at position 16 *)
+Example C08_file_mdat_hyps :
+  let file := [0;0;0;8;102;114;101;101; 0;0;0;8;109;100;97;116; 0;0;0;10;109;100;97;116;1;2;
+               0;0;0;1;109;100;97;116;0;0;0;0;0;0;0;16] in
+  let bs := [mkBD [102;114;101;101] false 0; mkBD name_mdat false 0; mkBD name_mdat false 2; mkBD name_mdat true 0] in
+  layout_at file 0 bs = true /\
+  match file_mdat None (views true file 0 bs), file_mdat None (views false file 0 bs) with
+  | Ok (Some a), Ok (Some b) => mdat_view a = (16, false, 10, 24) /\ mdat_view b = (16, false, 10, 24)
+  | _, _ => False
+  end.
+Proof. vm_compute. repeat split; reflexivity. Qed.
+
+(* the statement is not a triviality: reading "empty" off the in-memory payload only (MdatBox.DataLength())
+   makes the lazily decoded media mdat lose against a later empty mdat - the two modes then differ *)
+Theorem C08_file_mdat_datalength_refuted :
+  exists file bs,
+    layout_at file 0 bs = true /\
+    option_map mdat_view (match file_mdat_dl None (views false file 0 bs) with Ok r => r | _ => None end)
+    <> option_map mdat_view (match file_mdat_dl None (views true file 0 bs) with Ok r => r | _ => None end).
+Proof. exact file_mdat_datalength_refuted. Qed.
+Print Assumptions C08_file_mdat_datalength_refuted.
